@@ -11,24 +11,36 @@ namespace Forest
 
 theorem addConsolidate_off {f : Forest} (h : f.consolidation = false) (n : Nat) (a b : Option Nat) :
     f.addConsolidate n a b = (f, false) := by
-  simp [addConsolidate, h]
+  rw [addConsolidate_eq_old]; exact addConsolidateOld_off h _ _ _
 
 theorem addConsolidate_not_text {f : Forest} {n : Nat} (h : f.textOf n = none) (a b : Option Nat) :
     f.addConsolidate n a b = (f, false) := by
-  unfold addConsolidate
-  cases f.consolidation <;> simp [h]
+  rw [addConsolidate_eq_old]; exact addConsolidateOld_not_text h _ _
 
 theorem addConsolidate_prev {f : Forest} {n a : Nat} {added ps : Str} (hc : f.consolidation = true)
-    (hn : f.textOf n = some added) (ha : f.textOf a = some ps) (b : Option Nat) :
+    (hn : f.textOf n = some added) (ha : f.textOf a = some ps) (b : Option Nat) (hne : a ≠ n) :
     f.addConsolidate n (some a) b = ((f.setValue a (.text (ps ++ added))).spliceOut n, true) := by
-  unfold addConsolidate
+  rw [addConsolidate_eq_old, selfPrev_of_ne (by simpa using hne)]
+  unfold addConsolidateOld
+  simp [hc, hn, ha]
+
+/-- eccbbb7: the previous neighbour handed in is the node itself; the helper takes the node's own
+    previous sibling. -/
+theorem addConsolidate_prev_self {f : Forest} {n a : Nat} {added ps : Str} (hc : f.consolidation = true)
+    (hn : f.textOf n = some added) (hp : f.prevSibling n = some a) (ha : f.textOf a = some ps)
+    (b : Option Nat) :
+    f.addConsolidate n (some n) b = ((f.setValue a (.text (ps ++ added))).spliceOut n, true) := by
+  rw [addConsolidate_eq_old, selfPrev_self, hp]
+  unfold addConsolidateOld
   simp [hc, hn, ha]
 
 theorem addConsolidate_next {f : Forest} {n b : Nat} {added ns : Str} {prev : Option Nat}
     (hc : f.consolidation = true) (hn : f.textOf n = some added)
-    (hprev : ∀ a, prev = some a → f.textOf a = none) (hb : f.textOf b = some ns) :
+    (hprev : ∀ a, prev = some a → f.textOf a = none) (hb : f.textOf b = some ns) (hne : b ≠ n) :
     f.addConsolidate n prev (some b) = ((f.setValue b (.text (added ++ ns))).spliceOut n, true) := by
-  unfold addConsolidate
+  have h1 : prev ≠ some n := fun h => by rw [hprev n h] at hn; cases hn
+  rw [addConsolidate_eq_old_of_ne h1 (by simpa using hne)]
+  unfold addConsolidateOld
   cases prev with
   | none => simp [hc, hn, hb]
   | some a => simp [hc, hn, hb, hprev a rfl]
@@ -36,21 +48,13 @@ theorem addConsolidate_next {f : Forest} {n b : Nat} {added ns : Str} {prev : Op
 theorem addConsolidate_none {f : Forest} {n : Nat} {prev next : Option Nat}
     (hprev : ∀ a, prev = some a → f.textOf a = none) (hnext : ∀ b, next = some b → f.textOf b = none) :
     f.addConsolidate n prev next = (f, false) := by
-  unfold addConsolidate
-  cases hcc : f.consolidation
-  · simp
-  · cases hn : f.textOf n with
-    | none => simp
-    | some added =>
-      cases prev with
-      | none =>
-        cases next with
-        | none => simp
-        | some b => simp [hnext b rfl]
-      | some a =>
-        cases next with
-        | none => simp [hprev a rfl]
-        | some b => simp [hprev a rfl, hnext b rfl]
+  cases hn : f.textOf n with
+  | none => rw [addConsolidate_eq_old]; exact addConsolidateOld_not_text hn _ _
+  | some added =>
+    have h1 : prev ≠ some n := fun h => by rw [hprev n h] at hn; cases hn
+    have h2 : next ≠ some n := fun h => by rw [hnext n h] at hn; cases hn
+    rw [addConsolidate_eq_old_of_ne h1 h2]
+    exact addConsolidateOld_nontext_neighbours hprev hnext
 
 /-- `last_child` from the child list. -/
 def lastOf (L : List HTree) : Option Nat :=
